@@ -6,7 +6,7 @@ logging.disable(logging.CRITICAL)
 import check as checkmod
 from sim import batch
 from sim.chooser import derive_seed
-prop = sys.argv[1]; target = int(sys.argv[2]); tier = "quick"
+prop = sys.argv[1]; target = int(sys.argv[2]); tier = sys.argv[3] if len(sys.argv) > 3 else "quick"
 mod = importlib.import_module(checkmod.HARNESS_OF[prop]); h = mod.HARNESS
 h.setup(prop, tier)
 idx = None
